@@ -237,6 +237,9 @@ func c15Check(ci interface{}) lib.Outcome {
 			if strings.Join(ra, " ") != strings.Join(rb, " ") {
 				return lib.Outcome{Violation: fmt.Sprintf("%s, query %d (%s), headers=%v: MultipleMatch differs\nfrom archive:   %v\nbuilt directly: %v", desc, qi, qdesc, hdr, ra, rb)}
 			}
+			if oa, ob := renderOrdered(ma), renderOrdered(mb); oa != ob {
+				return lib.Outcome{Violation: fmt.Sprintf("%s, query %d (%s), headers=%v: MultipleMatch returns the same matches in a different order\nfrom archive:   %s\nbuilt directly: %s", desc, qi, qdesc, hdr, oa, ob)}
+			}
 			if rb2 := renderMatches(b2.MultipleMatch(text, hdr)); strings.Join(ra, " ") != strings.Join(rb2, " ") {
 				return lib.Outcome{Violation: fmt.Sprintf("%s, query %d (%s), headers=%v: MultipleMatch differs\nfrom archive:            %v\nbuilt through AddValue:  %v", desc, qi, qdesc, hdr, ra, rb2)}
 			}
